@@ -101,6 +101,12 @@ check('C10', E2 + ' + ProcSim',
       'process table simulated (validated, see C09); fatal signals act immediately or after 0.05 s (< delayafterterminate); wait() on a child that never exits is skipped as documented blocking',
       'DESIGN.md 3 C10')
 
+check('C12', E2,
+      'complete enumeration of scripted reactive dialogues (<= 4 steps + exit) x 9 event tables x mode x withexitstatus on the virtual clock, real pexpect.run() over the _spawnpty seam',
+      'Every dialogue (emit with 0/1/2 occurrences, occurrence split across chunks, wait for an input line, pause beyond the timeout, exit code) is played by a harness-owned peer that logs what it received; the returned output must be exactly the prefix of what the child wrote up to the stop point, each occurrence answered once in stream order with list priority, exit status true.',
+      'event patterns are atomic tokens; with a TIMEOUT key only output and pattern responses are judged; process table simulated',
+      'DESIGN.md 3 C12')
+
 NOT_BUILT = {}
 
 
